@@ -44,7 +44,7 @@ class PybindWrapper:
             'return', 'True', 'elif', 'in', 'try', 'and', 'else', 'is',
             'while', 'as', 'except', 'lambda', 'with', 'assert', 'finally',
             'nonlocal', 'yield', 'break', 'for', 'not', 'class', 'from', 'or',
-            'continue', 'global', 'pass'
+            'continue', 'global', 'pass', 'async', 'await'
         ]
         self.xml_source = xml_source
         self.xml_parser = XMLDocParser()
